@@ -149,7 +149,7 @@ Definition ledger : list ((string * string * string * string * N) * site_class) 
    (("rsass/src/variablescope.rs", "get_function", "unwrap", "let f = self . functions . lock ( ) . unwrap ( ) . get ( name ) . cloned ( ) ;", 1%N), Unmodelled);
    (("rsass/src/variablescope.rs", "get_lfunction", "unwrap", "self . functions . lock ( ) . unwrap ( ) . get ( name ) . unwrap ( ) . clone ( )", 1%N), Unmodelled);
    (("rsass/src/variablescope.rs", "get_lfunction", "unwrap", "self . functions . lock ( ) . unwrap ( ) . get ( name ) . unwrap ( ) . clone ( )", 2%N), Unmodelled);
-   (("rsass/src/variablescope.rs", "do_use", "index", ". map_or ( name , | i | & name [ i + 1 .. ] )", 1%N), Unmodelled);
+   (("rsass/src/variablescope.rs", "do_use", "index", ". map_or ( name , | i | & name [ i + 1 .. ] ) ;", 1%N), Unmodelled);
    (("rsass/src/variablescope.rs", "do_use", "unwrap", "for ( name , function ) in & * module . functions . lock ( ) . unwrap ( ) {", 1%N), Unmodelled);
    (("rsass/src/variablescope.rs", "do_use", "unwrap", "for ( name , value ) in & * module . variables . lock ( ) . unwrap ( ) {", 1%N), Unmodelled);
    (("rsass/src/variablescope.rs", "do_use", "unwrap", "for ( name , m ) in & * module . mixins . lock ( ) . unwrap ( ) {", 1%N), Unmodelled);
